@@ -41,7 +41,7 @@ func init() {
 	register(&c03{base{
 		id:          "C03",
 		level:       lvlExploration,
-		rule:        "same scenario generator as C01 with emphasis on damage that leaves every slice findable while files are wrong (insertion at/off slice boundaries, swapped files, lost trailing zeros, appended garbage) and every subset of volume files deleted; real par2.Verify is judged against the model: RepairNeeded()==false iff every file is byte-identical; usable+unusable = total; usable <= slices whose content a brute-force finder locates anywhere in the surviving protected files; usable >= slices of byte-identical files; usable recovery blocks = distinct exponents read by the reference reader from the intact volume files; RepairPossible() == (unusable <= usable blocks). A key is (content, slice size, #files, op kinds, volumes deleted). Further kinds: a recovery file with one flipped bit; an extra recovery file without main packet whose recovery packet (own set ID, valid hash) is mis-sized or has an exponent above 16 bits (refusal or exclusion from the count); recovery files that start (and sometimes end) with packets of a foreign set (every own block still counts). Index base names and set directories may contain '%'. Also: surviving recovery files stored twice (a block counts once), index path spelled in a non-clean form (library and par v).",
+		rule:        "same scenario generator as C01 with emphasis on damage that leaves every slice findable while files are wrong (insertion at/off slice boundaries, swapped files, lost trailing zeros, appended garbage) and every subset of volume files deleted; real par2.Verify is judged against the model: RepairNeeded()==false iff every file is byte-identical; usable+unusable = total; usable <= slices whose content a brute-force finder locates anywhere in the surviving protected files; usable >= slices of byte-identical files; usable recovery blocks = distinct exponents read by the reference reader from the intact volume files; RepairPossible() == (unusable <= usable blocks). A key is (content, slice size, #files, op kinds, volumes deleted). Further kinds: a recovery file with one flipped bit; an extra recovery file without main packet whose recovery packet (own set ID, valid hash) is mis-sized or has an exponent above 16 bits (refusal or exclusion from the count); recovery files that start (and sometimes end) with packets of a foreign set (every own block still counts). Index base names and set directories may contain '%'. Also: surviving recovery files stored twice (a block counts once), index path spelled in a non-clean form (library and par v).. Kind index-cut (index ends at a packet boundary, no recovery file, damage in the file whose packets were dropped); a quarter of the scenarios also call Verify on a recovery file (refusal or full counts).",
 		assumptions: commonAssumptions,
 		opts:        core.WorkerOpts{CrashIsViolation: true, WallSeconds: 2400},
 	}})
